@@ -199,9 +199,17 @@ def check_direction(r, model, kind, label, direction, x, ctx, params, g, case, c
         r.viol("nonfinite_grad", "%s gradient is not finite" % label, params=nonfin[:4], **det)
         return "bad"
 
+    L0 = []
+
+    def l0():
+        if not L0:
+            with torch.no_grad():
+                L0.append(float(functional(model, kind, direction, x, ctx, w, v)))
+        return L0[0]
+
     def fd(apply):
-        """apply(t) sets the perturbation t*U; returns (dL at h, dL at h/2)"""
-        vals = []
+        """apply(t) sets the perturbation t*U; returns (dL at h, dL at h/2, one-sided skew at h, at h/2)"""
+        vals, skews = [], []
         for hh in (H, H / 2):
             with torch.no_grad():
                 apply(+hh)
@@ -210,15 +218,22 @@ def check_direction(r, model, kind, label, direction, x, ctx, params, g, case, c
                 lm = float(functional(model, kind, direction, x, ctx, w, v)) if not apply.on_inputs else apply.eval_()
                 apply(0.0)
             vals.append((lp - lm) / (2 * hh))
-        return vals
+            skews.append(abs((lp - l0()) - (l0() - lm)) / hh)
+        return vals[0], vals[1], skews[0], skews[1]
 
-    def judge(what, name, analytic, d1, d2):
+    def judge(what, name, analytic, d1, d2, sk1=None, sk2=None):
         r.ev()
         r.count("fd_comparisons")
         scale = max(abs(d2), abs(analytic), 1e-6)
         if not (np.isfinite(d1) and np.isfinite(d2)):
             return "kink"
         if abs(d1 - d2) > 1e-3 * scale + 1e-9:
+            return "kink"
+        # a slope jump closer than h/2 to the point is straddled by both central differences (they agree with each other
+        # and with neither one-sided derivative): the forward/backward one-sided differences then disagree by the jump at
+        # every step size, whereas curvature makes them disagree in proportion to the step
+        if sk1 is not None and np.isfinite(sk2) and sk2 > 1e-4 * scale + 1e-9 and sk2 > 0.75 * sk1:
+            r.count("kinks_inside_half_step")
             return "kink"
         d2 = (4 * d2 - d1) / 3          # Richardson extrapolation: O(h^4) truncation error
         # UMNN: the forward value is a 20-30 point Clenshaw-Curtis quadrature of a ReLU network while autograd returns
@@ -234,7 +249,8 @@ def check_direction(r, model, kind, label, direction, x, ctx, params, g, case, c
             r.cell(label, direction, mode, what)
         return "ok"
 
-    # ---- float32 twin: the gradients users actually get must agree with the float64 ones (norm-wise, 5 %)
+    # ---- float32 twin: the gradients users actually get must agree with the float64 ones (norm-wise, 20 %:
+    # float32 rounding amplified by squashing / steep splines reaches 5 %; a cut gradient path is off by 50-100 %)
     if kind == "transform" and "umnn" not in label and "umnn" not in str(cfg) and not case.get("pre"):
         try:
             m32 = copy.deepcopy(model).float()
@@ -259,8 +275,8 @@ def check_direction(r, model, kind, label, direction, x, ctx, params, g, case, c
                     continue
                 nb = float(b.norm())
                 err = float((a.double() - b).norm())
-                r.worst("f32_grad_relerr/tol", err / (0.05 * nb + 1e-3))
-                if err > 0.05 * nb + 1e-3 and nb < 1e6:
+                r.worst("f32_grad_relerr/tol", err / (0.2 * nb + 1e-3))
+                if err > 0.2 * nb + 1e-3 and nb < 1e6:
                     r.viol("f32_gradient", "%s float32 gradient disagrees with the float64 gradient" % label, what=what,
                            rel_err=err / max(nb, 1e-30), **det)
         except Exception as e:
@@ -283,9 +299,9 @@ def check_direction(r, model, kind, label, direction, x, ctx, params, g, case, c
                     p.copy_(base[n] + t * U[n])
     if params:
         ap = ApplyParams({n for n, _ in params})
-        d1, d2 = fd(ap)
+        d1, d2, sk1, sk2 = fd(ap)
         analytic = sum(float((grads[n] * U[n]).sum()) for n, _ in params if grads[n] is not None)
-        st = judge("all_params", "*", analytic, d1, d2)
+        st = judge("all_params", "*", analytic, d1, d2, sk1, sk2)
         if st != "ok":
             return st
         # ---- per tensor: correct and, where it influences the result, present
@@ -294,7 +310,7 @@ def check_direction(r, model, kind, label, direction, x, ctx, params, g, case, c
             idx = torch.randperm(len(names), generator=g)[:8].tolist()
             names = [names[i] for i in idx]
         for n in names:
-            d1, d2 = fd(ApplyParams({n}))
+            d1, d2, sk1, sk2 = fd(ApplyParams({n}))
             r.count("per_tensor_checks")
             if grads[n] is None:
                 if np.isfinite(d2) and abs(d2) > 1e-7 and abs(d1 - d2) <= 1e-4 * abs(d2):
@@ -302,7 +318,7 @@ def check_direction(r, model, kind, label, direction, x, ctx, params, g, case, c
                            name=n, finite_difference=d2, **det)
                     return "bad"
                 continue
-            st = judge("tensor", n, float((grads[n] * U[n]).sum()), d1, d2)
+            st = judge("tensor", n, float((grads[n] * U[n]).sum()), d1, d2, sk1, sk2)
             if st == "kink":
                 return st
             if st == "bad":
@@ -312,7 +328,7 @@ def check_direction(r, model, kind, label, direction, x, ctx, params, g, case, c
         if base_t is None:
             continue
         Ux = torch.randn(base_t.shape, generator=g)
-        vals = []
+        vals, skews = [], []
         for hh in (H, H / 2):
             with torch.no_grad():
                 try:
@@ -325,13 +341,14 @@ def check_direction(r, model, kind, label, direction, x, ctx, params, g, case, c
                 except Exception:
                     lp = lm = float("nan")
             vals.append((lp - lm) / (2 * hh))
+            skews.append(abs((lp - l0()) - (l0() - lm)) / hh)
         if grad_t is None:
             if np.isfinite(vals[1]) and abs(vals[1]) > 1e-7:
                 r.viol("missing_gradient", "%s result depends on the %s but no gradient reaches them" % (label, what),
                        finite_difference=vals[1], **det)
                 return "bad"
             continue
-        st = judge(what, what, float((grad_t * Ux).sum()), vals[0], vals[1])
+        st = judge(what, what, float((grad_t * Ux).sum()), vals[0], vals[1], skews[0], skews[1])
         if st != "ok":
             return st
     return "ok"
